@@ -406,7 +406,22 @@ pub fn validate_amount_decimals(amount: f64, currency: &str) -> Result<(), Parse
 /// - Decimal precision exceeds currency limit (C03)
 pub fn parse_amount_with_currency(input: &str, currency: &str) -> Result<f64, ParseError> {
     let amount = parse_amount(input)?;
-    validate_amount_decimals(amount, currency)?;
+
+    // Count decimals on the text: counting them on the f64 is unreliable for large amounts
+    let max_decimals = get_currency_decimals(currency) as usize;
+    let decimal_places = input
+        .rfind([',', '.'])
+        .map(|pos| input[pos + 1..].trim_end_matches('0').len())
+        .unwrap_or(0);
+    if decimal_places > max_decimals {
+        return Err(ParseError::InvalidFormat {
+            message: format!(
+                "Amount has {} decimal places but currency {} allows maximum {} (Error code: C03)",
+                decimal_places, currency, max_decimals
+            ),
+        });
+    }
+
     Ok(amount)
 }
 
